@@ -305,9 +305,9 @@ built on the addresses the bridge contract returns -/
 theorem connect_leaves_nonce_and_value_to_the_endpoint :
     Dos.Gen.ReqLoopFacts.connectTransactor =
       ["auth, err := bind.NewKeyedTransactorWithChainID(e.key.PrivateKey, e.chainID)", "auth.GasLimit = e.gasLimit",
-       "if e.gasPrice != 0", "auth.GasPrice = big.NewInt(int64(e.gasPrice))", "auth.Context = ctx",
+       "if e.gasPrice != 0", "auth.GasPrice = new(big.Int).SetUint64(e.gasPrice)", "auth.Context = ctx",
        "auth, err := bind.NewKeyedTransactorWithChainID(e.key.PrivateKey, e.chainID)", "auth.GasLimit = e.gasLimit",
-       "if e.gasPrice != 0", "auth.GasPrice = big.NewInt(int64(e.gasPrice))", "auth.Context = ctx"] ∧
+       "if e.gasPrice != 0", "auth.GasPrice = new(big.Int).SetUint64(e.gasPrice)", "auth.Context = ctx"] ∧
     Dos.Gen.AbiFacts.connectBindings =
       ["bridge, err := dosbridge.NewDosbridge(e.bridgeAddr, rpcClient)",
        "proxyAddr, err := bridge.GetProxyAddress(&bind.CallOpts{Context: dialCtx})",
